@@ -273,6 +273,21 @@ pub fn check(id: &str) -> Outcome {
 		Ok(Err(e)) => return viol(format!("the game cannot be written back: {}", e)),
 		Err(p) => return viol(format!("the .slp writer panicked: {}", p)),
 	}
+	// the same file as a recorder that never patched the raw-length field leaves it (length 0: events run up to Game End):
+	// the metadata element is still there and must still be read
+	{
+		let mut unpatched = file.clone();
+		unpatched[11..15].copy_from_slice(&[0, 0, 0, 0]);
+		match read_with(&unpatched, None) {
+			Ok(Ok(g)) => {
+				if let Err(m) = same_meta("metadata read from the .slp with a zero raw-length field", &g.metadata, &want) {
+					return viol(m);
+				}
+			}
+			Ok(Err(e)) => return viol(format!("the reader rejected the file with a zero raw-length field: {}", e)),
+			Err(p) => return Panicked(format!("read (zero raw length): {}", p)),
+		}
+	}
 	// .slpp: the JSON copy and the re-read game
 	let archive = match guard(move || {
 		let mut out = vec![];
